@@ -25,8 +25,8 @@ MODEL_MODULES = ['HdVerif.Model.SRItems']
 NAMESPACE = 'HdVerif.C13'
 DRIVER = 'Drivers/C13.lean'
 RULE = ('one case = one content item tree (depth <= 3) of a value type drawn uniformly from the 15, with generated '
-        'admissible values (code values of <= 16, > 16 and URN form; ints and floats incl. extremes; dates / times with '
-        'fractions and offsets; coordinate arrays of every graphic type at and around the required counts; frame / '
+        'admissible values (code values of <= 16, > 16 and URN form, given as CodedConcept or as pydicom Code with and without scheme version; ints and floats incl. extremes; dates / times with '
+        'fractions and offsets; coordinate arrays of every graphic type at and around the required counts in every memory layout (C, Fortran, transposed / strided / reversed views, read-only, float32, int); frame / '
         'segment / channel lists incl. single values) or, in ~25 % of the cases, one forbidden feature (count off by '
         'one, wrong dimension, open or non-coplanar polygon, unknown enumerated value, no time points, child without '
         'relationship type); each accepted tree is read back through its accessors, parsed from a plain in-memory '
@@ -64,6 +64,40 @@ REQUIRED = {'CODE': ['ConceptCodeSequence'], 'COMPOSITE': ['ReferencedSOPSequenc
             'PNAME': ['PersonName'], 'SCOORD': ['GraphicType', 'GraphicData'], 'SCOORD3D': ['GraphicType', 'GraphicData'],
             'TCOORD': ['TemporalRangeType'], 'TIME': ['Time'], 'TEXT': ['TextValue'], 'UIDREF': ['UID'],
             'WAVEFORM': ['ReferencedSOPSequence']}      # PS3.3 C.17.3 / C.18: what each value type cannot do without
+LAYOUTS = ['C', 'C', 'F', 'transposed-view', 'strided-rows', 'strided-columns', 'reversed-view', 'read-only', 'float32', 'int']
+
+
+def _array(pts, dim, layout):
+    """The logical (n x dim) array in the requested memory layout (same values, same shape)."""
+    n = len(pts)
+    base = np.array(pts, dtype=float).reshape(n, dim)
+    if layout == 'F':
+        arr = np.asfortranarray(base)
+    elif layout == 'transposed-view':
+        arr = np.ascontiguousarray(base.T).T                 # F-contiguous view of a (dim x n) array
+    elif layout == 'strided-rows':
+        big = np.full((2 * n + 1, dim), 777.0)
+        big[::2][:n] = base
+        arr = big[::2][:n]
+    elif layout == 'strided-columns':
+        big = np.full((n, 2 * dim), 777.0)
+        big[:, ::2] = base
+        arr = big[:, ::2]
+    elif layout == 'reversed-view':
+        arr = np.ascontiguousarray(base[::-1])[::-1]
+    elif layout == 'read-only':
+        arr = base.copy()
+        arr.flags.writeable = False
+    elif layout == 'float32':
+        arr = base.astype(np.float32)                        # generated coordinates are float32-exact
+    elif layout == 'int' and np.array_equal(base, np.round(base)):
+        arr = base.astype(np.int64)
+    else:
+        arr = base
+    assert arr.shape == (n, dim) and np.array_equal(np.asarray(arr, dtype=float), base)
+    return arr
+
+
 NAME_MANDATORY = ['TEXT', 'NUM', 'CODE', 'DATETIME', 'DATE', 'TIME', 'UIDREF', 'PNAME']   # PS3.3 C.17.3 Table C.17-5
 ERR = {'IndexError': 'index', 'ValueError': 'value', 'TypeError': 'type', 'RuntimeError': 'runtime',
        'KeyError': 'key', 'AttributeError': 'attribute'}
@@ -87,7 +121,7 @@ def _code(r, form=None):
     else:
         v = 'http://example.org/c/' + ''.join(r.choice('abcdefgh') for _ in range(r.choice([1, 12])))
     return {'v': v, 's': r.choice(['99HDV', 'DCM', 'SCT', 'UCUM']), 'm': 'meaning ' + str(r.randrange(1000)),
-            'ver': r.choice([None, None, None, '1.0'])}
+            'ver': r.choice([None, None, '2.1', '1.0']), 'as_code': r.random() < 0.3}
 
 
 def _uid(r):
@@ -240,6 +274,7 @@ def gen_item(r, depth=0, vt=None, bad=None, need_rel=False):
                 a['origin'] = r.choice(['volume', 'SLIDE'])
             d['bad'] = 'enum'
         a['pts'] = [[_dyadic(r) for _ in range(a['dim'])] for _ in range(n)]
+        a['layout'] = r.choice(LAYOUTS)
     elif vt == 'SCOORD3D':
         gt = r.choice(list(GT3))
         if bad == 'open':
@@ -292,6 +327,7 @@ def gen_item(r, depth=0, vt=None, bad=None, need_rel=False):
             a['dim'] = r.choice([2, 4])
             pts = [(p + [1.0])[:a['dim']] for p in pts]
         a['pts'] = pts
+        a['layout'] = r.choice(LAYOUTS)
     elif vt == 'TCOORD':
         a['range'] = r.choice(TRT)
         k = r.choice(['positions', 'positions', 'offsets', 'datetimes'])
@@ -345,6 +381,10 @@ def gen_case(ctx, idx):
 
 def _mk_code(c):
     from highdicom.sr.coding import CodedConcept
+    if c.get('as_code'):
+        # a plain pydicom Code (the constructors convert it with CodedConcept.from_code)
+        from pydicom.sr.coding import Code
+        return Code(c['v'], c['s'], c['m'], c['ver'])
     return CodedConcept(value=c['v'], scheme_designator=c['s'], meaning=c['m'], scheme_version=c['ver'])
 
 
@@ -390,11 +430,11 @@ def build(d):
                                  referenced_waveform_channels=None if a['channels'] is None else [tuple(c) for c in a['channels']],
                                  relationship_type=rel)
     elif vt == 'SCOORD':
-        arr = np.array(a['pts'], dtype=float).reshape(len(a['pts']), a['dim'])
+        arr = _array(a['pts'], a['dim'], a.get('layout', 'C'))
         it = sr.ScoordContentItem(nm, a['gt'], arr, pixel_origin_interpretation=a['origin'], fiducial_uid=a['fiducial'],
                                   relationship_type=rel)
     elif vt == 'SCOORD3D':
-        arr = np.array(a['pts'], dtype=float).reshape(len(a['pts']), a['dim'])
+        arr = _array(a['pts'], a['dim'], a.get('layout', 'C'))
         it = sr.Scoord3DContentItem(nm, a['gt'], arr, frame_of_reference_uid=a['frame_of_reference'],
                                     fiducial_uid=a['fiducial'], relationship_type=rel)
     elif vt == 'TCOORD':
@@ -891,13 +931,14 @@ def check_item(ctx, case, reqs=None, pend=None):
 
         def shape(x):
             return (x['vt'], x['args'].get('gt'), len(x['args'].get('pts', [])), tuple(shape(c) for c in x['children']))
-        opts = tuple(k for k in ('qualifier', 'template', 'frames', 'segments', 'channels', 'origin', 'fiducial', 'positions',
+        opts = (a.get('layout'),) + tuple(k for k in ('qualifier', 'template', 'frames', 'segments', 'channels', 'origin', 'fiducial', 'positions',
                                  'offsets', 'datetimes') if a.get(k) is not None)
         ntkey = (shape(d), opts, d['rel'] is None)
     ctx.case(sample=case if ctx.evaluations % 211 == 0 else None, nontrivial_key=ntkey, value_type=vt,
              outcome=('ok' if it is not None else 'refused:' + str(err)), planted=str(bad),
              graphic_type=(f'{vt}/{gt}/{len(a["pts"])}' if gt else None) or '-', depth=_depth(d),
-             children=len(d['children']))
+             children=len(d['children']), layout=a.get('layout', '-'),
+             code_args=sum(1 for c in (d['name'], a.get('value'), a.get('unit'), a.get('qualifier')) if isinstance(c, dict) and c.get('as_code')))
     return it, err, obs
 
 
